@@ -70,17 +70,32 @@ func c16Clobber(r *vf.Run) {
 			_ = os.Symlink(p+".target", p)
 		}},
 	}
+	// malformed inputs: the command fails for a reason of its own before or after it has looked at the output path;
+	// whatever it cleans up then, the file that was there before is not its file
+	insertLine := func(text string, at int, line string) string {
+		lines := strings.SplitAfter(text, "\n")
+		if at > len(lines) {
+			at = len(lines)
+		}
+		return strings.Join(lines[:at], "") + line + "\n" + strings.Join(lines[at:], "")
+	}
 	contents := []struct {
-		name string
-		rows int
-		vals []int
-	}{{"empty", 0, []int{1}}, {"small", 20, []int{3, 2}}, {"over-1000-values", 2300, []int{2300}}}
+		name   string
+		rows   int
+		vals   []int
+		mangle func(string) string
+	}{{"empty", 0, []int{1}, nil}, {"small", 20, []int{3, 2}, nil}, {"over-1000-values", 2300, []int{2300}, nil},
+		{"malformed-record-3", 20, []int{3, 2}, func(t string) string { return insertLine(t, 2, `"only one field"`) }},
+		{"malformed-record-1500", 2300, []int{2300}, func(t string) string { return insertLine(t, 1500, `"a","b","c","d","e","f","g"`) }},
+		{"bare-quote-record-2", 20, []int{3, 2}, func(t string) string { return insertLine(t, 1, `x"y,"z`) }},
+		{"header-only-garbage", 0, []int{1}, func(t string) string { return "\"unterminated\n" }},
+	}
 	for _, p := range pre {
 		for _, c := range contents {
 			csv := gen.CSVWithValues(c.rows, c.vals)
 			for _, entry := range []string{"IndexWriter.Flush", "updog create", "updog create -b"} {
 				cid := fmt.Sprintf("clobber/%s/%s/%s", p.kind, c.name, strings.ReplaceAll(entry, " ", "_"))
-				if !r.Want(cid) {
+				if !r.Want(cid) || (c.mangle != nil && entry == "IndexWriter.Flush") {
 					continue
 				}
 				r.Guard(cid, func() {
@@ -113,7 +128,12 @@ func c16Clobber(r *vf.Run) {
 						}
 					default:
 						in := filepath.Join(dir, vf.Digest(cid)+".csv")
-						_ = os.WriteFile(in, []byte(csv.Text), 0o644)
+						text := csv.Text
+						if c.mangle != nil {
+							text = c.mangle(text)
+							r.Count("create_onto_existing_path_with_malformed_input", 1)
+						}
+						_ = os.WriteFile(in, []byte(text), 0o644)
 						// the output path spelled absolutely, relatively ("./name", "name", "sub/../name") from its directory
 						spell := []string{out, "./" + filepath.Base(out), filepath.Base(out), "x/../" + filepath.Base(out)}[len(cid)%4]
 						_ = os.MkdirAll(filepath.Join(dir, "x"), 0o755)
@@ -122,7 +142,7 @@ func c16Clobber(r *vf.Run) {
 							args = append(args, "-b")
 						}
 						inArg := in
-						if p.kind == "text" && c.name == "small" {
+						if p.kind == "text" && c.name == "small" && c.mangle == nil {
 							inArg = out // the input file IS the output path
 							_ = os.WriteFile(out, []byte(csv.Text), 0o600)
 							before = mon.StatFile(out)
